@@ -59,6 +59,7 @@ pub fn library_entries() -> Vec<TypeEntry> {
         entry!(Vec<Arc<str>>),
         entry!(VecDeque<u32>),
         entry!(VecDeque<String>),
+        entry!(VecDeque<()>),
         entry!(BinaryHeap<u32>),
         entry!(BinaryHeap<String>),
         entry!(BTreeSet<u32>),
